@@ -77,7 +77,7 @@ func c08Pick(label string, n int) int {
 // bloom filter, dictionary or min/max -> real tagFamilyFilters.unmarshal, exactly as
 // partIter.findBlock does), never rules out a block that holds a row satisfying the condition,
 // and never fails or panics.
-// bound: tag of type int; block of 1..2 rows (thorough 1..3) with arbitrary int64 values; condition = | != | IN | NOT IN | > | >= | < | <= with 1..2 literals drawn from {7,-1,12345678,0}; the bloom filter is its contract (no false negatives, arbitrary false positives)
+// bound: tag of type int; block of 1..2 rows (thorough 1..3) with arbitrary int64 values; condition = | != | IN | NOT IN | > | >= | < | <= with 1..2 literals drawn from {7,-1,12345678,0}; the block as first written or as a merge rewrites it (values only); the bloom filter is its contract (no false negatives, arbitrary false positives)
 // outside: AND/OR trees of conditions, null tag values
 func VerifH_C08_SkippingIndexNeverHidesAMatchingRow_IntTag() { c08SkippingCase(0) }
 
@@ -89,7 +89,7 @@ func VerifH_C08_SkippingIndexNeverHidesAMatchingRow_IntTag() { c08SkippingCase(0
 // bloom filter, dictionary or min/max -> real tagFamilyFilters.unmarshal, exactly as
 // partIter.findBlock does), never rules out a block that holds a row satisfying the condition,
 // and never fails or panics.
-// bound: tag of type string; block of 1..2 rows (thorough 1..3), values of 1..2 arbitrary bytes; condition = | != | IN | NOT IN with 1..2 literals drawn from {"a","7","bc"}; the bloom filter is its contract (no false negatives, arbitrary false positives)
+// bound: tag of type string; block of 1..2 rows (thorough 1..3), values of 1..2 arbitrary bytes; condition = | != | IN | NOT IN with 1..2 literals drawn from {"a","7","bc"}; the block as first written or as a merge rewrites it (values only); the bloom filter is its contract (no false negatives, arbitrary false positives)
 // outside: AND/OR trees of conditions, null tag values
 func VerifH_C08_SkippingIndexNeverHidesAMatchingRow_StringTag() { c08SkippingCase(1) }
 
@@ -101,7 +101,7 @@ func VerifH_C08_SkippingIndexNeverHidesAMatchingRow_StringTag() { c08SkippingCas
 // bloom filter, dictionary or min/max -> real tagFamilyFilters.unmarshal, exactly as
 // partIter.findBlock does), never rules out a block that holds a row satisfying the condition,
 // and never fails or panics.
-// bound: tag of type string array; block of 1..2 rows, arrays of 1..2 items of 1 arbitrary byte (thorough: 1..2 bytes in single-row blocks); condition HAVING | NOT HAVING with 1..2 literals drawn from {"a","7","bc"}; the bloom filter is its contract (no false negatives, arbitrary false positives)
+// bound: tag of type string array; block of 1..2 rows, arrays of 1..2 items of 1 arbitrary byte (thorough: 1..2 bytes in single-row blocks); condition HAVING | NOT HAVING with 1..2 literals drawn from {"a","7","bc"}; the block as first written or as a merge rewrites it (values only); the bloom filter is its contract (no false negatives, arbitrary false positives)
 // outside: AND/OR trees of conditions, null tag values
 func VerifH_C08_SkippingIndexNeverHidesAMatchingRow_StringArrayTag() { c08SkippingCase(2) }
 
@@ -113,7 +113,7 @@ func VerifH_C08_SkippingIndexNeverHidesAMatchingRow_StringArrayTag() { c08Skippi
 // bloom filter, dictionary or min/max -> real tagFamilyFilters.unmarshal, exactly as
 // partIter.findBlock does), never rules out a block that holds a row satisfying the condition,
 // and never fails or panics.
-// bound: tag of type int array; block of 1..2 rows, arrays of 1..2 arbitrary int64 items; condition HAVING | NOT HAVING with 1..2 literals drawn from {7,-1,12345678,0}; the bloom filter is its contract (no false negatives, arbitrary false positives)
+// bound: tag of type int array; block of 1..2 rows, arrays of 1..2 arbitrary int64 items; condition HAVING | NOT HAVING with 1..2 literals drawn from {7,-1,12345678,0}; the block as first written or as a merge rewrites it (values only); the bloom filter is its contract (no false negatives, arbitrary false positives)
 // outside: AND/OR trees of conditions, null tag values
 func VerifH_C08_SkippingIndexNeverHidesAMatchingRow_IntArrayTag() { c08SkippingCase(3) }
 
@@ -264,6 +264,16 @@ func c08SkippingCase(kind int) { // 0 int, 1 string, 2 string array, 3 int array
 			m = ivals[0] <= ilits[0]
 		}
 		anyMatch = zzverif.Or(anyMatch, m)
+	}
+	if zzverif.Bool("block rewritten by a merge") {
+		// A merge writes its blocks from tags that the read path (tag.mustReadValues) filled: values
+		// only - no unique-value set and no min/max are carried over or recomputed.
+		for i := range b.tagFamilies {
+			for j := range b.tagFamilies[i].tags {
+				tg := &b.tagFamilies[i].tags[j]
+				tg.uniqueValues, tg.min, tg.max = nil, nil, nil
+			}
+		}
 	}
 	mp := &memPart{}
 	bw := generateBlockWriter()
